@@ -207,6 +207,12 @@ EFFECT = [
     "c[k] = [w]\nc[k] += [c]\nc.push(w)\nlen(c[k][1]) == 2",
     "par['first'] = child\npar['z'] = w\n('z' in par['first']['parent']) == False",
     "x = [a]\nx[0] = x\nx.push(w)\nlen(x[0]) == 1",
+    # (34..) re-binding a name that holds a host object leaves that object alone; so do the builtins behind index assignment
+    "a = [[w]]\na.push(w)\nd = {'z': w}\nd['y'] = w\nlen(a)",
+    "x = a\nx = d\nx['p'].push(w)\nx = [w]\nx.push(w)",
+    "__setitem__(c, k, a)\nc[k][i].push(w)\nc | __setitem__(k, d)\nc[k]['p'].push(w)",
+    "c[k] = [w]\n__setitem_with_op__(c, k, '+=', a)\nc[k][1].push(w)",
+    "[zero] | map(v => __setitem__(e, 'm', a))\ne['m'][i].push(w)",
 ]
 MUST_BE_TRUE = set(range(28, 34))
 MAY_FAIL = (19, 20, 21, 22)          # a refusal (error, nothing stored) is as good as an independent copy
